@@ -805,7 +805,7 @@ pub fn run(run: &mut Run) {
         performs a close handshake. The client wraps the socket with the crate's WebsocketStream. Oracle: packets delivered through Framed \
         equal the TCP model's list for the concatenated binary payloads and end in Disconnected; raw reads with caller buffers of 1..2048 \
         bytes return exactly the payload bytes; each Framed::write (and each keep-alive reply) reaches the server as exactly one binary \
-        message equal to the frame. A second part writes 2 000..12 000 packets through a client socket with a small send buffer while the server refuses to read until the writer has stalled, then compares every binary message with its frame. A third part runs C19's cancellation schedules on the scripted transport and requires that no write call of the connection ever offers bytes of two frames (each call becomes one message). Non-trivial = a frame spans two or more messages, or a non-binary message sits inside a frame."
+        message equal to the frame; runs of 1..1500 messages without data; raw reads that fill each caller buffer over several polls; a second connection made by the thread of an abandoned one must carry exactly its own stream. A second part writes 2 000..12 000 packets through a client socket with a small send buffer while the server refuses to read until the writer has stalled, then compares every binary message with its frame. A third part runs C19's cancellation schedules on the scripted transport and requires that no write call of the connection ever offers bytes of two frames (each call becomes one message). Non-trivial = a frame spans two or more messages, or a non-binary message sits inside a frame."
         .into();
     run.assumptions = vec![
         "tokio-tungstenite on loopback delivers messages in order; the 10 s session limit can only be hit if data was lost (the server sends everything and closes)".into(),
